@@ -52,7 +52,7 @@ def translate():
         for f in ("x", "u", "logl"):
             if t == f"{f}[infinite_idx]={f}[idx]":
                 fields.append(f)
-        if isinstance(s, ast.If) and _ns(s.test) == "self.have_blobs" and [_ns(x) for x in s.body] == ["blobs[infinite_idx]=blobs[idx]"]:
+        if isinstance(s, ast.If) and _ns(s.test) == "blobsisnotNone" and [_ns(x) for x in s.body] == ["blobs[infinite_idx]=blobs[idx]"]:
             fields.append("blobs")
     for f in ("x", "u", "logl"):
         need(f"self.state.set_current('{f}',{f})" in rsrc, rep, f"write-back of {f}")
